@@ -138,4 +138,29 @@ def c02(run):
                      "Go comparator tolerance 1e-9 relative"])
 
 
-RECIPES = {"C02": c02}
+def c03(run):
+    gens = [("Gen_Window", "win", 8, 1, 6000, 200000, ["WindowLaw", "EmitWin"], 1000),
+            ("Gen_Window", "win500", 64, 8, 1000, 30000, ["EmitWin"], 500)]
+    return query_check(
+        run, gens, RESULT,
+        rule=("TLC enumerates every sample layout (floats / staleness markers, two value patterns) x range x step x offset x @ x "
+              "window start x step count (12 and 23 cross the engine's batch of 10); WindowLaw (sum_over_time over 2^t values is the "
+              "membership bitmask of the closed window) is model-checked on every scenario; boundary scenarios of the seeded residue "
+              "class are replayed with a range function chosen by hash and validated by QueryTrace. distinct_nontrivial = structural "
+              "scenarios on which PromQLRef agreed with Prometheus."),
+        assumptions=["Prometheus v0.40.1 is the reference", "values of rate-like kernels are OPAQUE in the spec and compared with the reference by the Go comparator (1e-9)"])
+
+
+def c04(run):
+    gens = [("Gen_Agg", "agg", 1, 1, 6000, 120000, ["AggLaw", "EmitAgg"], 1000)]
+    return query_check(
+        run, gens, RESULT,
+        rule=("TLC enumerates 3 label configurations (labels absent on some series, two metrics with equal label sets, an upper-case "
+              "label) x every presence history of series 1 over a 4-tick period x pattern lists for the others x 4/12/23 steps x "
+              "NaN/Inf members; AggLaw (groups partition the input; outputs distinct; metric name dropped) is model-checked for every "
+              "grouping on every scenario; aggregator, grouping and parameter are chosen per scenario by the seeded hash. "
+              "distinct_nontrivial = structural scenarios on which PromQLRef agreed with Prometheus."),
+        assumptions=["Prometheus v0.40.1 is the reference", "avg/stddev/stdvar/quantile values are OPAQUE in the spec and compared with the reference by the Go comparator"])
+
+
+RECIPES = {"C02": c02, "C03": c03, "C04": c04}
